@@ -169,7 +169,10 @@ func runC09(p *Program, e *Engine, r *Result, tier string) {
 	}
 	a.R.ob("C09.3", "delete-self:parent-lookup", "the duplicate Remove of a deleted watched path is suppressed exactly when the parent directory of this watch's path is in the path table", a.P.pos(df.Handler.Pos()), sup,
 		"an empty-event return under IN_DELETE_SELF ∧ ok(pathTable[Dir(watch.path)])")
-	// (4) fresh entry on re-Add: shared with C12.1
+	// every other suppression of an event is one of the enumerated reasons (shared with C01.3)
+	c01Drops(a, df, "C09.3")
+	// (4) fresh entry on re-Add: shared with C12.1; a stale entry is released first (shared with C04.7)
+	c04Replace(a, tf, ro.API["AddWith"], "C09.4")
 	c12Acquire(a, tf, ro.API["AddWith"])
 	for i := range a.R.Obligations {
 		if a.R.Obligations[i].Rule == "C12.1" {
